@@ -100,11 +100,22 @@ def norm_field(f):
     return dict(f, dflt=(f["dflt"][0], norm_obj(f["dflt"][1])))
 
 
+def nt_conv_hc(co):
+    """a NamedTuple in a converter-level world: its dict hooks are made by `namedtuple_dict_*_factory` with the
+    converter's options passed explicitly (type_overrides do not reach them)"""
+    return {"ovs": {}, "use_alias": False, "incl_init_false": False, "oid": co["oid"], "forbid": co["forbid"],
+            "detailed": co["detailed"]}
+
+
 def gcls_sx(c, conv=None):
     kw = " ".join(terms.esc(f["name"]) for f in c["fields"] if f.get("kw_only"))
+    if conv is not None and c["kind"] == "nt":
+        hc_text = hc_sx(nt_conv_hc(conv))
+    else:
+        hc_text = conv_sx(conv) if conv is not None else hc_sx(c["hc"])
     return "(gcls %s %d (kw%s) %s %s)" % (
         c["kind"], 1 if c["frozen"] else 0, (" " + kw) if kw else "",
-        conv_sx(conv) if conv is not None else hc_sx(c["hc"]),
+        hc_text,
         " ".join(terms.field_sx(norm_field(f)) for f in c["fields"]))
 
 
@@ -137,6 +148,8 @@ def eff_hc(g, ci):
     co = g.get("conv")
     if co is None:
         return c["hc"]
+    if c["kind"] == "nt":
+        return nt_conv_hc(co)
     ovs = {}
     if c["kind"] != "td":
         for f in c["fields"]:
@@ -285,6 +298,13 @@ class HGen:
             f = {"name": n, "alias": alias, "ty": ty, "dflt": None, "init": True, "required": True, "kw_only": False}
             if kind == "td":
                 f["required"] = r.random() < 0.65
+            elif kind in ("attrs", "dc") and n not in forced and r.random() < 0.14:
+                # a default that is an EMPTY BUILTIN COLLECTION produced by the builtin itself (`factory=list`,
+                # `default_factory=dict`, ...) on an attribute whose type also admits values that are falsy without
+                # being that default: None (Optional[...]), 0 / "" / False / an empty collection of another class (Any)
+                f["ty"], f["dflt"] = self.empty_factory_shape(w, kind, untyped)
+                if r.random() < 0.2:
+                    f["kw_only"] = True
             else:
                 if r.random() < 0.5:
                     v = self.G.value(w, ty, 2, any_stable=True) if ty is not None else self.G.any_leaf()
@@ -312,6 +332,22 @@ class HGen:
         elif kind == "nt":
             fields.sort(key=lambda f: f["dflt"] is not None)
         return {"kind": kind, "frozen": frozen, "slots": r.random() < 0.5, "fields": fields, "hc": neutral_hc()}
+
+    def empty_factory_shape(self, w, kind, untyped):
+        r = self.rng
+        leaf = r.choice(["int", "str", "float", "bool"])
+        x = r.random()
+        if x < 0.3:
+            return ("opt", (r.choice(["list", "seq", "mseq"]), leaf)), ("fac", ("l", []))
+        if x < 0.5:
+            return ("opt", ("dict", "str", leaf)), ("fac", ("d", []))
+        if x < 0.58:
+            return ("opt", ("tup*", leaf)), ("fac", ("t", []))
+        if x < 0.64:
+            return ("opt", (r.choice(["set", "fset"]), "int")), ("fac", r.choice([("S", []), ("F", [])]))
+        if x < 0.85:
+            return (None if (untyped and kind == "attrs") else "any"), ("fac", r.choice([("l", []), ("d", [])]))
+        return ("list", leaf), ("fac", ("l", []))
 
     # ---- customisations
     def hookcfg(self, c, want, detailed, forbid):
@@ -408,7 +444,9 @@ class HGen:
         return {"oid": r.random() < 0.5, "forbid": forbid, "detailed": detailed, "tovs": tovs}
 
     def gworld(self, n_classes=None, kinds=("attrs", "dc", "td", "nt"), want="consistent", conv_level=False, forbid_p=0.0,
-               chain=False):
+               chain=False, nt_conv=False):
+        """nt_conv: NamedTuples are allowed in a converter-level world (their dict hooks are registered on the converter
+        through `namedtuple_dict_*_factory` with the converter's options)"""
         r = self.rng
         detailed = r.random() < 0.5
         w = {"classes": [], "enums": [], "detailed": detailed, "conv": None}
@@ -418,7 +456,7 @@ class HGen:
                 w["enums"].append([("i", v) for v in r.sample(range(-3, 9), n)])
             else:
                 w["enums"].append([("s", v) for v in r.sample(["b", "c", "x", "zz", "7", "-1", "b7"], n)])
-        if conv_level:
+        if conv_level and not nt_conv:
             kinds = tuple(k for k in kinds if k != "nt")
         self.classes(w, r.randint(1, 4) if n_classes is None else n_classes, kinds, chain)
         if conv_level:
@@ -467,8 +505,25 @@ def py_override(o):
         unstruct_hook=None if o["uh"] is None else tag_wrap(o["uh"]))
 
 
+EMPTY_FACTORIES = {"l": list, "d": dict, "S": set, "F": frozenset, "t": tuple}
+
+
+def empty_factory(dflt):
+    """the builtin a user writes as `factory=` / `default_factory=` for an empty-collection default, or None"""
+    if dflt is not None and dflt[0] == "fac" and dflt[1][0] in EMPTY_FACTORIES and not dflt[1][1]:
+        return EMPTY_FACTORIES[dflt[1][0]]
+    return None
+
+
 class HRealised(Realised):
     """classes of a gworld: attrs (aliases, kw_only), dataclasses, TypedDicts, NamedTuples"""
+
+    def _default(self, d):
+        # an empty-collection factory default is spelled the way people spell it: the builtin itself
+        fac = empty_factory(d)
+        if fac is not None:
+            return ("fac", fac)
+        return super()._default(d)
 
     def _make_class(self, ci, c):
         name = f"H{self.uid}_{ci}"
@@ -546,8 +601,17 @@ class HookSession:
         co = g.get("conv")
         if co is not None:
             tovs = {self.R.ty(t): py_override(o) for t, o in co["tovs"]}
-            self.conv = Converter(detailed_validation=g["detailed"], omit_if_default=co["oid"],
-                                  forbid_extra_keys=co["forbid"], type_overrides=tovs)
+            self.conv = conv = Converter(detailed_validation=g["detailed"], omit_if_default=co["oid"],
+                                         forbid_extra_keys=co["forbid"], type_overrides=tovs)
+            for ci, c in enumerate(g["classes"]):
+                if c["kind"] == "nt":
+                    cl = self.R.classes[ci]
+                    hc = nt_conv_hc(co)
+                    u = namedtuple_dict_unstructure_factory(cl, conv, hc["oid"], True)
+                    s = namedtuple_dict_structure_factory(cl, conv, hc["detailed"], hc["forbid"], True)
+                    self.hooks[ci] = (u, s)
+                    conv.register_unstructure_hook_func(lambda t, cl=cl: t is cl, u)
+                    conv.register_structure_hook_func(lambda t, cl=cl: t is cl, s)
             return
         self.conv = conv = Converter(detailed_validation=g["detailed"])
         for ci, c in enumerate(g["classes"]):
